@@ -17,6 +17,7 @@ from . import c03
 PROPERTY = "C15"
 LEVEL = "exploration"
 NEEDS_RUST = True
+AUTO_TWINS = False  # this module drives both implementations explicitly
 RULE = (
     "Differential: each twin pair (parse_tree, sorted_tree_items, apply_delta, create_delta, bisect_find_sha, "
     "_merge_entries, _is_tree, _count_blocks) is called with the same input in a forked child (crash isolation); "
